@@ -19,7 +19,7 @@ class Mailbox(Parseable[str]):
 
     def __init__(self, mailbox: str) -> None:
         super().__init__()
-        if mailbox.upper() == 'INBOX':
+        if mailbox.isascii() and mailbox.upper() == 'INBOX':
             self.mailbox = 'INBOX'
             self._raw: bytes | None = b'INBOX'
         else:
